@@ -44,20 +44,22 @@ def ev_call(self, e, st):
             return
         ckey = self.c.get("calls", {}).get(name)
         if ckey is not None:
-            for st1, vals in self.ev_list(e.args, st):
+            for st1, vals, kw in ev_args(self, e, st):
                 if isinstance(vals, Raise):
                     yield st1, vals
                     continue
-                kw = yield_kwargs(self, e, st1)
                 yield from self.call_contract(st1, ckey, vals, kw, e)
             return
         if name in models.CLASSES and "src" in models.CLASSES[name] and name not in self.c.get("no_inline", ()):
-            for st1, vals in self.ev_list(e.args, st):
+            for st1, vals, kw in ev_args(self, e, st):
                 if isinstance(vals, Raise):
                     yield st1, vals
                     continue
-                kw = yield_kwargs(self, e, st1)
                 yield from construct(self, st1, name, vals, kw, e)
+            return
+        if name in ("set", "dict", "list") and not e.args and not e.keywords:
+            s = st.fork()
+            yield s, self.alloc(s, "opaque")       # an empty fresh container whose content is not modelled
             return
         yield from builtin_call(self, name, e, st)
         return
@@ -70,12 +72,15 @@ def ev_call(self, e, st):
             recv = []
             if dotted.startswith("self.") and dotted.count(".") == 1 and not self.c.get("static_calls", {}).get(dotted):
                 recv = [f.value]
-            for st1, vals in self.ev_list(recv + list(e.args), st):
+            for st1, vals, kw in ev_args(self, e, st, first=recv):
                 if isinstance(vals, Raise):
                     yield st1, vals
                     continue
-                kw = yield_kwargs(self, e, st1)
                 yield from self.call_contract(st1, ckey, vals, kw, e)
+            return
+        if dotted == "logging.getLogger":
+            s = st.fork()
+            yield s, self.alloc(s, "opaque")
             return
         if dotted == "math.isclose":
             yield from math_isclose(self, e, st)
@@ -99,11 +104,10 @@ def ev_call(self, e, st):
             if is_ref(base.ty):
                 ck = self.c.get("calls", {}).get(f"{base.ty[1]}.{f.attr}")
                 if ck is not None:
-                    for st2, vals in self.ev_list(e.args, st1):
+                    for st2, vals, kw in ev_args(self, e, st1):
                         if isinstance(vals, Raise):
                             yield st2, vals
                             continue
-                        kw = yield_kwargs(self, e, st2)
                         yield from self.call_contract(st2, ck, [base] + vals, kw, e)
                     continue
             for st2, vals in self.ev_list(e.args, st1):
@@ -176,6 +180,17 @@ def inline_function(self, st, fs, args, kwargs, node, result_override=None):
             yield s2, (result_override if result_override is not None else Val(z3.IntVal(0), "none"))
         else:
             raise Unsupported("break/continue escaping an inlined body")
+
+
+def ev_args(self, e, st, first=()):
+    """positional (after the optional receiver expressions `first`) and keyword argument values, left to right (may fork/raise)"""
+    exprs = list(first) + list(e.args) + [k.value for k in e.keywords]
+    n_pos = len(first) + len(e.args)
+    for st1, vals in self.ev_list(exprs, st):
+        if isinstance(vals, Raise):
+            yield st1, vals, None
+        else:
+            yield st1, vals[:n_pos], {k.arg: v for k, v in zip(e.keywords, vals[n_pos:])}
 
 
 def yield_kwargs(self, e, st):
